@@ -1639,17 +1639,18 @@ func (vc *VC) mergePure(pre *State, base int, w0 int, outs []Outcome) []Outcome 
 	first := true
 	for i := len(outs) - 1; i >= 0; i-- {
 		o := outs[i]
+		// a fact holds under the branch guards that precede it on the path (not under later ones)
 		var guards, facts []Term
 		for k := base; k < len(o.St.pc); k++ {
 			if k < len(o.St.isFact) && o.St.isFact[k] {
-				facts = append(facts, o.St.pc[k])
+				facts = append(facts, Implies(And(guards...), o.St.pc[k]))
 			} else {
 				guards = append(guards, o.St.pc[k])
 			}
 		}
 		cond := And(guards...)
 		for _, f := range facts {
-			st.Fact(Implies(cond, f))
+			st.Fact(f)
 		}
 		if first {
 			res = append([]Val(nil), o.Ret...)
